@@ -71,7 +71,7 @@ KIND_NAME = {"recv": "Receive", "serve": "ServeAsk", "deliver": "Deliver", "qdel
 STACKS = ["memswarm", "fragswarm", "mbapp", "p2pmux", "multiswarm", "p2pkeswarm", "quicswarm", "sshswarm", "udpswarm"]
 # wrapping stacks that own their inner swarm, run with an inner swarm whose Close reports an error (after really closing);
 # multiswarm3: three transports, every non-empty subset of them failing (Go randomises the map order Close iterates in)
-VARIANT_STACKS = ["fragswarm+innererr", "mbapp+innererr", "p2pkeswarm+innererr", "quicswarm+innererr", "multiswarm3+innererr"]
+VARIANT_STACKS = ["p2pmux+reopened", "fragswarm+innererr", "mbapp+innererr", "p2pkeswarm+innererr", "quicswarm+innererr", "multiswarm3+innererr"]
 HUBS = ["tell", "ask"]
 BS = [0, 1, 4]
 PHASES = ["idle", "pre", "cb", "post", "cancel"]
